@@ -219,7 +219,8 @@ def random_plan(rng, size):
         elif c == "pause":
             body.append(m("pause"))
         elif c == "defer":
-            body.append(m("pause", None, [], {"defer": True}))
+            # both argument forms of the message: Msg('pause', defer=True) and the positional Msg('pause', None, True)
+            body.append(m("pause", None, [], {"defer": True}) if len(body) % 2 else m("pause", None, [True], {}))
         elif c == "unknown":
             body.append(m("unknown_cmd"))
         elif c == "close_open":
